@@ -27,20 +27,41 @@ structure Obs where
   hn   : Res Nat        -- n of Header.Unmarshal on the same bytes = offset of the payload
   re   : Res Bytes      -- Marshal() of the decoded packet (`err other` when nothing was decoded)
   reUn : Res Packet     -- Unmarshal of those bytes into a fresh Packet (`err other` when there are none)
+  ids  : List UInt8     -- Header.GetExtensionIDs() of the decoded packet ([] when nothing was decoded)
+  gets : List (Option Bytes)   -- Header.GetExtension(q) for the queried ids, nil = none ([] when nothing was decoded)
   deriving DecidableEq, Repr
 
-/-- the model's observation -/
-def modelObs (buf : Bytes) : Obs :=
+/-- the model's observation of byte string `buf` with `Get` queries `qs` -/
+def modelObs (buf : Bytes) (qs : List UInt8) : Obs :=
   let u := pktUnmarshal {} buf
   let re : Res Bytes := match u with | .ok p => pktMarshal p | _ => .err .other
   { un := (u.map canonP).coarse
     hn := ((hdrUnmarshal {} buf).map (·.2)).coarse
     re := re
-    reUn := match re with | .ok bs => ((pktUnmarshal {} bs).map canonP).coarse | _ => .err .other }
+    reUn := match re with | .ok bs => ((pktUnmarshal {} bs).map canonP).coarse | _ => .err .other
+    ids := match u with | .ok p => getExtensionIDs p.header | _ => []
+    gets := match u with | .ok p => qs.map (getExtension p.header) | _ => [] }
 
 /-- sentence (1) -/
 def acceptsOK (w : Wire) (o : Obs) : Bool :=
   o.un == .ok (canonP w.toPacket) && o.hn == .ok w.extEnd
+
+/-- what `GetExtension q` of the decoded header has to return, where the property says something:
+    an id among the considered elements → the first such element's value; an id that stands
+    nowhere in the block → nil; an id that only occurs at or after a reserved id 15: no demand -/
+def expectHdrGet (ext : Option ExtBlock) (q : UInt8) : Option (Option Bytes) :=
+  match ext with
+  | none => some none
+  | some b => if b.ids.contains q then some (b.lookup q) else if !b.mentions q then some none else none
+
+def hdrGetsOK (ext : Option ExtBlock) : List UInt8 → List (Option Bytes) → Bool
+  | [], [] => true
+  | q :: qs, g :: gs => (match expectHdrGet ext q with | some v => g == v | none => true) && hdrGetsOK ext qs gs
+  | _, _ => false
+
+/-- sentence (1) through the public accessors of the decoded header -/
+def accessorsOK (w : Wire) (qs : List UInt8) (o : Obs) : Bool :=
+  o.ids == (match w.ext with | some b => b.ids | none => []) && hdrGetsOK w.ext qs o.gets
 
 /-- sentence (2), first half: says something only about accepted inputs -/
 def remarshalOK (o : Obs) : Bool :=
@@ -55,9 +76,9 @@ def remarshalOK (o : Obs) : Bool :=
 /-- sentence (2), second half -/
 def canonOK (buf : Bytes) (o : Obs) : Bool := o.re == .ok buf
 
-/-- `c03.wire`: description `w`, its image `buf` -/
-def wire (w : Wire) (buf : Bytes) (o : Obs) : Bool :=
-  (!w.WF || acceptsOK w o) && remarshalOK o && (!w.canonical || canonOK buf o)
+/-- `c03.wire`: description `w`, its image `buf`, queried ids `qs` -/
+def wire (w : Wire) (buf : Bytes) (qs : List UInt8) (o : Obs) : Bool :=
+  (!w.WF || (acceptsOK w o && accessorsOK w qs o)) && remarshalOK o && (!w.canonical || canonOK buf o)
 
 /-- `c03.mut`: any byte string -/
 def mutOK (o : Obs) : Bool := remarshalOK o
